@@ -70,3 +70,81 @@ Theorem C12_async_total : forall p f ty l rcx,
   end.
 Proof. exact async_total. Qed.
 Print Assumptions C12_async_total.
+
+(* ---- decoders built on the field loop ---- *)
+From PV Require Import Thrift.Skip Thrift.Msg Thrift.AppMsg Proofs.TotalP Proofs.SkipP Proofs.FieldLoopP Proofs.AppAsyncP.
+
+(* the skippers, both directions: with fuel beyond the length of the input, the asynchronous skipper
+   stops where the in-memory skipper stops, and fails whenever it fails ([E] := True; the error
+   direction needs the reader not to hold a stale bool value at entry -- [pend_ok] -- and gives that
+   back -- [npb]); with [E] := False: the value direction from ANY state *)
+Theorem C12_skip_async_eq : forall (E : Prop) p f d ty s,
+  inv s -> (blen s < f)%nat -> (E -> pend_ok p ty s) ->
+  match skip_val p f d ty s with
+  | Ok (_, s') => askip_val p f d ty s = Ok (tt, s') /\ inv s' /\ (blen s' <= blen s)%nat /\ (E -> npb s')
+  | Err _ => E -> exists e', askip_val p f d ty s = Err e'
+  | Panic _ => True
+  end.
+Proof. exact skip_askip. Qed.
+Print Assumptions C12_skip_async_eq.
+
+(* ApplicationException::decode_async = decode.  Value direction: on EVERY byte string, from every
+   reader state, with fuel beyond its length: the same (message, kind), the same stopping state *)
+Theorem C12_app_exception_async_eq : forall p fuel l rcx r s',
+  r_pfield rcx = false -> Z.of_nat (length l) < 2 ^ 63 -> (length l < fuel)%nat ->
+  app_decode p fuel (mkS l rcx) = Ok (r, s') ->
+  app_decode_async p fuel (mkS l rcx) = Ok (r, s').
+Proof. exact app_async_value. Qed.
+Print Assumptions C12_app_exception_async_eq.
+
+(* value and error direction in one statement, reader started idle.  Binary / binary-LE: every byte
+   string; compact: every byte string on which fields 1 / 2 are not announced as bool
+   ([app_typed_top]: decode reads them with read_faststr / read_i32 whatever the announced type, and
+   after a compact bool header that leaves the header's value parked -- Example
+   app_async_untyped_example shows the two decoders still agreeing there; the error direction of
+   that corner is not proved) *)
+Theorem C12_app_exception_async_outcome : forall p fuel l rcx,
+  idle rcx -> Z.of_nat (length l) < 2 ^ 63 -> (length l < fuel)%nat ->
+  (p = PCompact -> app_typed_top p fuel (mkS l rcx)) ->
+  match app_decode p fuel (mkS l rcx) with
+  | Ok (r, s') => app_decode_async p fuel (mkS l rcx) = Ok (r, s')
+  | Err _ => exists e', app_decode_async p fuel (mkS l rcx) = Err e'
+  | Panic _ => True
+  end.
+Proof. exact app_async_outcome. Qed.
+Print Assumptions C12_app_exception_async_outcome.
+
+(* composed with C07_app_exception_tolerant: decode_async on what pilota wrote *)
+Theorem C12_app_exception_written : forall p k fs c,
+  wt (VStruct fs) = true -> w_pend c = None -> Forall app_field_ok fs ->
+  exists ss, write_val p k (VStruct fs) c = Ok (ss, c) /\
+    forall fuel r, (vsize (VStruct fs) <= fuel)%nat -> (length (flat ss ++ r) < fuel)%nat ->
+      Z.of_nat (length (flat ss ++ r)) < 2 ^ 63 ->
+      app_decode_async p fuel (mkS (flat ss ++ r) r0) = Ok (app_pick fs app_default_msg 0, mkS r r0).
+Proof. exact app_exception_tolerant_async. Qed.
+Print Assumptions C12_app_exception_written.
+
+(* the asynchronous message envelope reader = the in-memory one on EVERY byte string and from every
+   reader state: same envelope and stopping position, an error whenever the in-memory reader
+   reports one (the compact readers disagree on the KIND of error for a bad protocol id / version:
+   InvalidData vs BadVersion -- Example message_async_examples) *)
+Theorem C12_message_async_eq : forall p l rcx,
+  r_pfield rcx = false -> Z.of_nat (length l) < 2 ^ 63 ->
+  match r_message_begin p (mkS l rcx) with
+  | Ok (m, s') => a_message_begin p (mkS l rcx) = Ok (m, s')
+  | Err _ => exists e', a_message_begin p (mkS l rcx) = Err e'
+  | Panic _ => True
+  end.
+Proof. exact message_async_outcome. Qed.
+Print Assumptions C12_message_async_eq.
+
+(* ... and enveloped messages back to back on one reader (envelope + value, value + error direction) *)
+Theorem C12_messages_async_eq : forall p fuel tys l rcx,
+  idle rcx -> Z.of_nat (length l) < 2 ^ 63 ->
+  match read_msgs p fuel tys (mkS l rcx) with
+  | Ok (r, s') => aread_msgs p fuel tys (mkS l rcx) = Ok (r, s')
+  | Err _ => exists e', aread_msgs p fuel tys (mkS l rcx) = Err e'
+  | Panic _ => True
+  end.
+Proof. exact messages_async_outcome. Qed.
+Print Assumptions C12_messages_async_eq.
